@@ -136,7 +136,17 @@ def run_case(case):
     k = case["kind"]
     if k == "construct":
         alts = case["alts"]
-        _, exc = outcome(lambda: mk_nested(alts, True))
+        via = case.get("via", "nested")
+        if via == "copy":
+            # built unchecked, then copied with the disjointness requirement
+            _, exc = outcome(lambda: mk_nested(alts, False).copy(True))
+        elif via == "contract":
+            # built unchecked, then handed to the contract constructor as ASSUMPTIONS (which must be disjoint)
+            inputs = sorted({v for a in alts for co, _ in a for v in co})
+            _, exc = outcome(lambda: PolyhedralIoContractCompound(mk_nested(alts, False), mk_nested([[({"out_o": 1}, 1)]], False),
+                                                                  [Var(v) for v in inputs], [Var("out_o")]))
+        else:
+            _, exc = outcome(lambda: mk_nested(alts, True))
         A = [C.prows(gen.mk_list(a)) for a in alts]
         names = names_of(A)
         hints = {}
@@ -212,6 +222,7 @@ def gen_cases(tier):
         mode = ["disjoint", "touching", "overlapping", "mixed"][(i // 6) % 4]
         c = {"id": i + 1, "kind": kind}
         if kind == "construct":
+            c["via"] = ["nested", "copy", "contract"][(i // 3) % 3]
             c["alts"] = alternatives(rng, vs, rng.randint(2, 3), mode)
             if i % 12 == 0:
                 # three alternatives, only the first and the last overlap
@@ -285,7 +296,8 @@ def main(tier, replay=None):
         "distinct_nontrivial": len(nontriv),
         "traces_validated_against_impl": len(traces),
         "rule": "nested lists with 1-3 alternatives over <= 4 variables (intervals along one variable plus half-planes): disjoint, touching, overlapping, "
-                "mixed, in shuffled order; constructor with the disjointness requirement, membership of dyadic behaviours, <= between nested lists, "
+                "mixed, in shuffled order; the disjointness requirement through the nested-list constructor, through copy(True) of a list built unchecked "
+                "and through the contract constructor given such a list as assumptions, membership of dyadic behaviours, <= between nested lists, "
                 "merge of compound contracts; TLC evaluates union membership itself and checks certificates (every result alternative inside a pairwise "
                 "intersection, every non-empty pairwise intersection inside a result alternative, result alternatives non-empty) or a refuting point",
         "verdict_counts": counts,
